@@ -209,7 +209,9 @@ def int_poly_multilinear(f, V, corners):
     dj = jac_det_poly(xs)
     g = f.compose(xs, d) * dj
     v = int_ref(g, 'box')
-    return abs(v), dj
+    # integral of f with the unsigned measure: the Jacobian determinant has one sign on a valid cell
+    sgn = 1 if dj.eval([Fr(1, 2)] * d) > 0 else -1
+    return v * sgn, dj
 
 
 def monomials_total(d, n):
@@ -218,3 +220,70 @@ def monomials_total(d, n):
 
 def monomials_tensor(d, n):
     return list(itertools.product(range(n + 1), repeat=d))
+
+
+def wedge_map_polys(V, corners):
+    """prism map x_i(X): corners[k] = (a, b, c) reference position of local vertex k with (a, b) a vertex
+    of the unit triangle and c in {0, 1}"""
+    d = 3
+    xs = []
+    X0, X1, X2 = Poly.var(0, 3), Poly.var(1, 3), Poly.var(2, 3)
+    one = Poly.const(1, 3)
+    for i in range(d):
+        pz = Poly()
+        for k, cor in enumerate(corners):
+            tri = (one - X0 - X1) if (cor[0] == 0 and cor[1] == 0) else (X0 if cor[0] == 1 else X1)
+            lin = X2 if cor[2] == 1 else (one - X2)
+            pz = pz + tri * lin * V[i][k]
+        xs.append(pz)
+    return xs
+
+
+def int_poly_wedge(f, V, corners):
+    xs = wedge_map_polys(V, corners)
+    dj = jac_det_poly(xs)
+    g = f.compose(xs, 3) * dj
+    sgn = 1 if dj.eval([Fr(1, 4), Fr(1, 4), Fr(1, 2)]) > 0 else -1
+    return int_ref(g, 'wedge') * sgn, dj
+
+
+def int_poly_facet(f, P):
+    """exact integral of Poly f over a straight facet with vertex coordinates P (dim x nv Fractions):
+    point, segment, triangle, planar quadrilateral (vertices in cyclic order).
+    returns (rational part R, squared normalisation S) with integral = R / sqrt(S) * ... see below:
+    the value is  R * sqrt(S)  for segments/triangles (S = squared measure factor) and R / sqrt(S)
+    for planar quadrilaterals; to keep it simple the function returns a float computed from exact
+    rationals with a single sqrt."""
+    import math
+    d = len(P)
+    nv = len(P[0])
+    if nv == 1:
+        return float(f.eval([P[i][0] for i in range(d)]))
+    if nv == 2:
+        xs = [Poly.const(P[i][0], 1) + Poly.var(0, 1) * (P[i][1] - P[i][0]) for i in range(d)]
+        g = f.compose(xs, 1)
+        L2 = sum((P[i][1] - P[i][0]) ** 2 for i in range(d))
+        return float(int_ref(g, 'box')) * math.sqrt(L2)
+    if nv == 3:
+        xs = [Poly.const(P[i][0], 2) + Poly.var(0, 2) * (P[i][1] - P[i][0]) + Poly.var(1, 2) * (P[i][2] - P[i][0])
+              for i in range(d)]
+        g = f.compose(xs, 2)
+        a = [P[i][1] - P[i][0] for i in range(d)]
+        b = [P[i][2] - P[i][0] for i in range(d)]
+        cr = [a[1] * b[2] - a[2] * b[1], a[2] * b[0] - a[0] * b[2], a[0] * b[1] - a[1] * b[0]]
+        return float(int_ref(g, 'simplex')) * math.sqrt(sum(c * c for c in cr))
+    # planar quadrilateral, bilinear parametrisation through the cyclic vertices 0, 1, 2, 3
+    s, t = Poly.var(0, 2), Poly.var(1, 2)
+    one = Poly.const(1, 2)
+    xs = []
+    for i in range(d):
+        xs.append((one - s) * (one - t) * P[i][0] + s * (one - t) * P[i][1] + s * t * P[i][2] + (one - s) * t * P[i][3])
+    g = f.compose(xs, 2)
+    xs_s = [x.diff(0) for x in xs]
+    xs_t = [x.diff(1) for x in xs]
+    cr = [xs_s[1] * xs_t[2] - xs_s[2] * xs_t[1], xs_s[2] * xs_t[0] - xs_s[0] * xs_t[2], xs_s[0] * xs_t[1] - xs_s[1] * xs_t[0]]
+    # constant unit normal direction N (at the first corner); surface element = N . (x_s x x_t) / |N|
+    N = [c.eval([Fr(0), Fr(0)]) for c in cr]
+    n2 = sum(c * c for c in N)
+    dens = cr[0] * N[0] + cr[1] * N[1] + cr[2] * N[2]
+    return float(int_ref(g * dens, 'box')) / math.sqrt(n2)
